@@ -672,6 +672,24 @@ func (g *gen) callStmt() *Stmt {
 		// a host function that panics with a value of its own (neither an error nor a string) and a host that survives it
 		return &Stmt{K: sCall, E: &Expr{K: eCall, S: "pboom", A: []*Expr{numLit(float64(g.tp.Int(0, 2, "boomkind")))}}}
 	}
+	if g.cfg.HostFnWrites && g.tp.Chance(12, "callretypes") {
+		// the host gives the assigned variable another type from inside the function that computes the new value:
+		// whatever the order of reads inside the statement, the variable must not end up with a value of the old type
+		pool := append(append(append([]string{}, g.vars[0]...), g.vars[1]...), g.vars[2]...)
+		if len(pool) > 0 {
+			v := pool[g.tp.Int(0, len(pool)-1, "retypevar")]
+			return &Stmt{K: sSet, Var: v, Op: "=", E: &Expr{K: eCall, S: "pty", A: []*Expr{{K: eStr, S: v}}}}
+		}
+	}
+	if g.cfg.HostFnWrites && len(g.vars[0]) > 0 && g.tp.Chance(8, "callclears") {
+		// the host empties its storer from inside the function that computes the new value of a number variable
+		v := g.vars[0][g.tp.Int(0, len(g.vars[0])-1, "clearvar")]
+		e := &Expr{K: eCall, S: "pclr"}
+		if g.tp.Bool("clearplus") {
+			e = g.bin("+", numLit(float64(g.tp.Int(0, 9, "clearlit"))), e)
+		}
+		return &Stmt{K: sSet, Var: v, Op: "=", E: e}
+	}
 	if g.cfg.HostFnWrites && len(g.vars[0]) > 0 && g.tp.Chance(40, "callwrites") {
 		// a host function that writes a variable through the storer in the middle of a run of statements
 		return &Stmt{K: sCall, E: &Expr{K: eCall, S: "pw", A: []*Expr{{K: eStr, S: g.vars[0][g.tp.Int(0, len(g.vars[0])-1, "pwvar")]}, g.expr('n', 1)}}}
